@@ -234,6 +234,7 @@ impl<A: Z> DefBack for CDef<A> {
     const IS_WRAPPER: bool = false;
     fn init(cfg: &DefCfg) -> Result<Self, c_int> {
         let mut strm = Box::new(zs());
+        crate::guard::install_current(&mut strm);
         let rc = unsafe { A::deflateInit2(&mut *strm, cfg.level, 8, cfg.window_bits_arg(), cfg.mem_level, cfg.strategy) };
         if rc != Z_OK {
             return Err(rc);
